@@ -223,7 +223,7 @@ def craft_echo(node, dst_ip: str, ttl: int):
     return bool(nic.send_frame(frame))
 
 
-N_TOPOS = 7
+N_TOPOS = 8
 DOMAIN = "c08.example"
 KINDS = ["ping", "dns", "web", "db", "ftp", "ntp"]
 SERVER_SW = {"dns": ["dns-server"], "web": ["dns-server", "web-server"], "db": ["database-service"], "ftp": ["ftp-server"],
@@ -544,7 +544,7 @@ def main(tier: str, seed: int) -> int:
     f = tlc.mc("MC_Forwarding", timeout=1200)
     if not f["ok"]:
         chk.violation({"module": "MC_Forwarding", "clause": str(f["violation"])}, {"tlc": f["output_tail"]})
-    chk.add_mc("MC_Forwarding(7 topologies incl. 2- and 3-router routing loops and an asymmetric triangle, ttl in {1,2,3,4,64}, safety + liveness)", f)
+    chk.add_mc("MC_Forwarding(8 topologies incl. 2- and 3-router routing loops and an asymmetric triangle, ttl in {1,2,3,4,64}, safety + liveness)", f)
     for act in ("MEmit", "MSwitch", "MRecv", "MLost", "MLocal", "MDeliver", "MForward", "MDrop"):
         if f["coverage"].get(act, (0, 0))[1] == 0:
             raise tlc.TLCError(f"vacuous model: action {act} never taken")
